@@ -3,6 +3,8 @@
    filter ::= all | empty | named:<0|1 case_sensitive>:<namehex>,<namehex>...
      ids <filter> <limit|-> <order id|rev> <tree> -> ok <pathhex>=<idhex>;...   (every node of the resulting Merkle tree; root path ".")
                                                   | err SymlinkTooLarge
+     iterids <filter> <limit|-> <order id|rev> <tree> -> the same, through the literal stack/queue model from_disk_iter
+                                                  (err MODEL <KeyError|Assert|OutOfFuel> cannot happen: C06_iter_total)
      spec <tree>                                   -> ok <node_id> <git_node_id> <wf 0|1>
      pruned <filter> <tree>                        -> ok <node_id of the physically pruned tree>
      export <filter> <limit|-> <tree>              -> ok D:<id>:<target,target..>;C:<id>:<sha1 of data>:<len>;S:<id>:<len>;...
@@ -44,12 +46,21 @@ let rec all_nodes (prefix : n list list) (m : mtree) : (n list list * mtree) lis
                   | MNode ks -> List.concat_map (fun (n, c) -> all_nodes (prefix @ [n]) c) ks)
 let join_path (p : n list list) : string =
   if p = [] then "." else hex_of_bytes (List.concat (List.mapi (fun i x -> if i = 0 then x else slash :: x) p))
+let show_ids (m : mtree) : string =
+  "ok " ^ String.concat ";" (List.map (fun (p, n) -> join_path p ^ "=" ^ hex_of_bytes (mt_id sha1 n)) (all_nodes [] m))
 let () = serve (function
   | ["ids"; f; lim; o; t] ->
       let ord = if o = "rev" then (fun _ l -> List.rev l) else (fun _ l -> l) in
       (match from_disk ord (parse_filter f) (parse_limit lim) (tree_of t) with
-       | FdOk m -> "ok " ^ String.concat ";" (List.map (fun (p, n) -> join_path p ^ "=" ^ hex_of_bytes (mt_id sha1 n)) (all_nodes [] m))
+       | FdOk m -> show_ids m
        | FdSymlinkTooLarge -> "err SymlinkTooLarge")
+  | ["iterids"; f; lim; o; t] ->
+      (match from_disk_iter (if o = "rev" then lrev else lid) (parse_filter f) (parse_limit lim) (tree_of t) with
+       | ItOk m -> show_ids m
+       | ItSymlinkTooLarge -> "err SymlinkTooLarge"
+       | ItKeyError -> "err MODEL KeyError"
+       | ItAssert -> "err MODEL Assert"
+       | ItOutOfFuel -> "err MODEL OutOfFuel")
   | ["spec"; t] ->
       let tr = tree_of t in
       "ok " ^ hex_of_bytes (node_id sha1 tr) ^ " " ^ hex_of_bytes (git_node_id sha1 tr) ^ (if wf_fs tr then " 1" else " 0")
